@@ -379,6 +379,13 @@ def gen_case(rng, kind):
             if rng.random() < 0.5:
                 c["v"] = rng.choice([100, 64, 127, 1])
                 c["qv"] += ",%d" % c["v"]
+        elif rng.random() < 0.25:
+            # the gate slot left EMPTY: 'X'L,,V (velocity only) and 'X'L, - the chord takes the track's gate like 'X'L
+            if rng.random() < 0.7:
+                c["v"] = rng.choice([100, 64, 127, 1])
+                c["qv"] = ",,%d" % c["v"]
+            else:
+                c["qv"] = ","
     return c
 
 
